@@ -231,6 +231,9 @@ func (e *Engine) VerifyFunc(fn *ssa.Function, spec *FuncSpec, lockMode bool) (re
 			res.Observes = append(res.Observes, ObserveTerm{Name: o.Text, Term: v.T, Sort: v.S})
 		}
 	}
+	if spec != nil && spec.Induction != nil {
+		fx.inductionHypothesis(a, fn, spec, env, st)
+	}
 	nReq := len(fx.ctx.asserts)
 	a.runBody("true", st)
 	// postconditions at every return
@@ -261,6 +264,9 @@ func (e *Engine) VerifyFunc(fn *ssa.Function, spec *FuncSpec, lockMode bool) (re
 		renv.nowOld = fx.nowEntry
 		if spec != nil {
 			renv.pkg = spec.Pkg
+			for _, ul := range spec.UseLemmas {
+				fx.ctx.Assert(Imp(r.guard, fx.lemmaInstance(a, ul, renv, r.st)))
+			}
 			enss := spec.Ensures
 			if lockMode {
 				enss = append(append([]*Clause{}, enss...), spec.LockEnsures...)
@@ -411,4 +417,93 @@ func (fx *FX) relevantAxioms() string {
 		}
 	}
 	return out.String()
+}
+
+// inductionHypothesis: for a lemma function with an empty body and "induction x by m", assume the lemma for every x'
+// with 0 <= m(x') < m(x).  Sound by well-founded induction on the integer measure (the body changes no state, so the
+// hypothesis and the conclusion speak about the same state).
+func (fx *FX) inductionHypothesis(a *act, fn *ssa.Function, spec *FuncSpec, env *SEnv, st *State) {
+	if !spec.Lemma {
+		specErrf("induction on a function that is not a lemma")
+	}
+	for _, b := range fn.Blocks {
+		for _, in := range b.Instrs {
+			switch in.(type) {
+			case *ssa.Return, *ssa.DebugRef:
+			default:
+				specErrf("induction lemma %s must have an empty body (found %T)", spec.Key, in)
+			}
+		}
+	}
+	cur, ok := env.vars[spec.Induction.Var]
+	if !ok {
+		specErrf("induction variable %s is not a parameter", spec.Induction.Var)
+	}
+	bv := Val{T: "ih!" + spec.Induction.Var, S: cur.S, GT: cur.GT}
+	env2 := env.with(spec.Induction.Var, bv)
+	var reqs, enss []string
+	for _, r := range spec.Requires {
+		reqs = append(reqs, fx.specTerm(r.X, env2, st, fx.entry, spec.Pkg))
+	}
+	for _, en := range spec.Ensures {
+		enss = append(enss, fx.specTerm(en.X, env2, st, fx.entry, spec.Pkg))
+	}
+	m1 := fx.specVal(spec.Induction.Measure, env2, st, fx.entry).T
+	m0 := fx.specVal(spec.Induction.Measure, env, st, fx.entry).T
+	fx.ctx.Assert(fmt.Sprintf("(forall ((%s %s)) (=> (and (<= 0 %s) (< %s %s) %s) %s))", bv.T, bv.S, m1, m1, m0, And(reqs...), And(enss...)))
+	fx.eng.assume("well-founded induction on an integer measure for lemma " + spec.Key + " (the lemma body is empty)")
+}
+
+// lemmaInstance: the statement of a proved lemma function, universally quantified over its "_" arguments, at a state.
+func (fx *FX) lemmaInstance(a *act, ul *UseLemma, env *SEnv, st *State) string {
+	e := fx.eng
+	lsp := e.specs.Funcs[ul.Key]
+	lfn := e.prog.funcByKeyAny(ul.Key)
+	if lsp == nil || lfn == nil || !lsp.Lemma {
+		specErrf("uselemma: %s is not a lemma function under contract", ul.Key)
+	}
+	if len(ul.Args) != len(lfn.Params) {
+		specErrf("uselemma %s: %d arguments, want %d", ul.Key, len(ul.Args), len(lfn.Params))
+	}
+	for _, b := range lfn.Blocks {
+		for _, in := range b.Instrs {
+			switch in.(type) {
+			case *ssa.Return, *ssa.DebugRef:
+			default:
+				specErrf("uselemma %s: only lemmas with an empty body can be instantiated at a state", ul.Key)
+			}
+		}
+	}
+	lenv := &SEnv{vars: map[string]Val{}, qn: env.qn, pkg: lsp.Pkg, nowOld: env.nowOld}
+	var decls []string
+	for i, p := range lfn.Params {
+		if ul.Args[i] == nil {
+			*env.qn++
+			srt := e.SortOf(p.Type())
+			name := fmt.Sprintf("%s!l%d", p.Name(), *env.qn)
+			lenv.vars[p.Name()] = Val{T: name, S: srt, GT: p.Type()}
+			decls = append(decls, fmt.Sprintf("(%s %s)", name, srt))
+			continue
+		}
+		v := fx.specVal(ul.Args[i], env, st, fx.entry)
+		if v.S == "Nil" {
+			srt := e.SortOf(p.Type())
+			v = Val{T: nilOf(srt), S: srt}
+		}
+		v.GT = p.Type()
+		lenv.vars[p.Name()] = v
+	}
+	var reqs, enss []string
+	for _, r := range lsp.Requires {
+		reqs = append(reqs, fx.specTerm(r.X, lenv, st, fx.entry, lsp.Pkg))
+	}
+	for _, en := range lsp.Ensures {
+		enss = append(enss, fx.specTerm(en.X, lenv, st, fx.entry, lsp.Pkg))
+	}
+	body := Imp(And(reqs...), And(enss...))
+	fx.usedSpec[ul.Key] = true
+	if len(decls) == 0 {
+		return body
+	}
+	return fmt.Sprintf("(forall (%s) %s)", strings.Join(decls, " "), body)
 }
